@@ -123,6 +123,9 @@ def run(ctx):
              ({'backends': ['ram'], 'multi': True, 'studies': ('s_1', 'sx1', 'p@s_1', 'p@S_1'), 'max_trials': 2, 'max_id': 3, 'clients': ('a',)}, 6),
              ({'backends': ['sqlfile'], 'switch': True, 'fresh_backends': True, 'max_trials': 2, 'max_meas': 1, 'max_ops': 2, 'max_id': 3,
                'starts': [[('CreateStudy', 's'), ('SuggestTrials', 's', 'a', 1), ('Switch',), ('ListTrials', 's'), ('GetStudy', 's'), ('Switch',)]]}, 4)]
+  # the small targeted plans first: when the wall-clock budget runs out (loaded machine, or a change that forces the slow
+  # replay-only mode) it is the tail of the big general plan that is cut, not a whole scenario family
+  plans.sort(key=lambda pd: 0 if (pd[0].get('starts') or pd[0].get('fresh_backends') or pd[0].get('multi')) else 1)
   cov = {'states': 0, 'transitions': 0, 'traces_validated_against_impl': 0, 'samples': [], 'runs': [], 'exhaustive': True}
   for cfg, depth in plans:
     cfg = dict(cfg)
